@@ -122,13 +122,24 @@ func init() {
 		"sort.Slice":                              sortSlice,
 	}
 	externalModels = map[string]intrinsic{
-		"net/http.Post":          httpRespErr,
-		"net/http.Get":           httpRespErr,
-		"(*net/http.Client).Do":  httpRespErr,
-		"(*net/http.Client).Get": httpRespErr,
+		"os.Open":                            valOrErr,
+		"os.Stat":                            valOrErr,
+		"(*os.File).Stat":                    valOrErr,
+		"net.Dial":                           valOrErr,
+		"net.DialTimeout":                    valOrErr,
+		"net.Listen":                         valOrErr,
+		"net.ListenUDP":                      valOrErr,
+		"net/http.NewRequest":                valOrErr,
+		"(*archive/zip.Writer).CreateHeader": valOrErr,
+		"(*archive/zip.Writer).Create":       valOrErr,
+		"net/http.Post":                      httpRespErr,
+		"net/http.Get":                       httpRespErr,
+		"(*net/http.Client).Do":              httpRespErr,
+		"(*net/http.Client).Get":             httpRespErr,
 	}
 	invokeModels = map[string]intrinsic{
-		"(error).Error": freshString,
+		"(error).Error":         freshString,
+		"(net.Listener).Accept": valOrErr,
 	}
 	intrinsicWrites = map[string]func(c *ssa.CallCommon, ws *writeSet){
 		"sync/atomic.StoreUint32": func(c *ssa.CallCommon, ws *writeSet) { ws.all = true },
@@ -393,7 +404,31 @@ func (vc *VC) DeclareFun(name string, args []Sort, res Sort) {
 func fsWrite(ex *Exec, st *State, fr *Frame, callee *ssa.Function, args []Val, c *ssa.CallCommon, pos token.Pos) Val {
 	ex.ghostBump(st, "$fsWrites")
 	ex.vc.Trust("file-system calls (" + callee.Name() + "): results unconstrained, no effect on verified memory; $fsWrites counts mutating calls")
-	return ex.freshResults(st, c.Signature().Results(), "fs")
+	return ex.valOrErrResults(st, c.Signature().Results(), "fs")
+}
+
+// valOrErr: library functions of the shape (T, error) with T a pointer or
+// interface return a non-nil T when the error is nil (documented behaviour of
+// the listed functions).
+func valOrErr(ex *Exec, st *State, fr *Frame, callee *ssa.Function, args []Val, c *ssa.CallCommon, pos token.Pos) Val {
+	for _, a := range args {
+		ex.markEscapedAny(a)
+	}
+	ex.vc.Trust("library calls returning (value, error) yield a non-nil value when the error is nil")
+	return ex.valOrErrResults(st, c.Signature().Results(), "lib")
+}
+
+func (ex *Exec) valOrErrResults(st *State, res *types.Tuple, hint string) Val {
+	v := ex.freshResults(st, res, hint)
+	if res.Len() == 2 {
+		if a, ok := v.(*Agg); ok {
+			k := kindOf(res.At(0).Type())
+			if (k == KPtr || k == KIface) && kindOf(res.At(1).Type()) == KIface {
+				ex.assume(st, implies(eq(sc(a.F[1]).T, z64()), not(eq(sc(a.F[0]).T, z64()))))
+			}
+		}
+	}
+	return v
 }
 
 // os.OpenFile mutates the file system only with O_CREATE / O_TRUNC.
@@ -403,7 +438,7 @@ func fsOpen(ex *Exec, st *State, fr *Frame, callee *ssa.Function, args []Val, c 
 		ex.ghostBump(st, "$fsWrites")
 	}
 	ex.vc.Trust("file-system calls (OpenFile): results unconstrained, no effect on verified memory")
-	return ex.freshResults(st, c.Signature().Results(), "fs")
+	return ex.valOrErrResults(st, c.Signature().Results(), "fs")
 }
 
 // httpRespErr: the documented contract of http.Post/Get/Do: the response is
